@@ -4,13 +4,16 @@
 (* for one entry of a generated document, judged against the annotations    *)
 (* the document was generated from.                                         *)
 (*                                                                          *)
-(* case  = [tool, W, cwmin, dot, exc, exp, out]                             *)
+(* case  = [tool, W, cwmin, ind, iw, eop, dot, exc, exp, out]               *)
 (*   tool  "asm" | "html" | "skool" (sna2skool's output) | "gen" (the skool *)
 (*         file the harness itself wrote as input for asm/html: it is       *)
 (*         judged by the same rules, so the generator is not trusted)       *)
 (*   W     configured line width (0: no width rule, html/gen)               *)
 (*   cwmin comment-width-min: an instruction comment field is never         *)
 (*         narrower than this, whatever the instruction needs               *)
+(*   ind   indent of ASM instruction rows in columns (8 for a tab)          *)
+(*   iw    instruction-width (asm) / InstructionWidth (skool)               *)
+(*   eop   length of the longest operation of the entry                     *)
 (*   dot   code of the word "." (continuation marker of register lines)     *)
 (*   exp   expected items in entry order                                    *)
 (*     P (paragraph-like block: title, paragraph, the register section)     *)
@@ -18,7 +21,8 @@
 (*        word `at' must begin a line, the first `fix' words of that line   *)
 (*        are a fixed prefix (register name, bullet), nb = 1: the chunk is  *)
 (*        an unbreakable row (sna2skool's <nowrap>); tabs = tables in order *)
-(*     G (instruction group) [k, ins = <<addr, op>>.., w]                   *)
+(*     G (instruction group) [k, ins = <<addr, op, length of operation>>.., *)
+(*        w]                                                                *)
 (*   out   projected output lines in order                                  *)
 (*     [kind, w, n, wl, cl, fl, op, addr, rs, warn, tab, cols, lf]          *)
 (*     kind "c" comment text, "s" empty comment line, "d" dot line,         *)
@@ -133,6 +137,10 @@ JudgeG(c, it, p, q) ==
       hasText(j) == Len(Lw(rs[j])) > 0 /\ ~closingOnly(j)
       unpacked == Cardinality({ j \in 1..(n - 1) : ~hasText(j) /\ hasText(j + 1) })
       early == Cardinality({ j \in 1..(n - 1) : Lop(rs[j]) = 0 /\ Lop(rs[j + 1]) # 0 })
+      \* where the comment field should begin according to the documented field widths (Wrap.tla)
+      column == IF c.tool = "asm" THEN Wr!AsmCommentColumn(c.ind, c.iw, Wr!MaxOf({ it.ins[j][3] : j \in 1..it.k }))
+                ELSE Wr!SkoolCommentColumn(c.iw, c.eop)
+      misaligned == Cardinality({ j \in 1..n : c.W > 0 /\ Lcl(rs[j]) > 0 /\ Ln(rs[j]) - Lcl(rs[j]) # column })
       broke == Cardinality({ j \in 1..(n - 1) :
                   /\ c.W > 0 /\ ~closingOnly(j + 1)
                   /\ \/ Wr!BrokeEarly(Lcl(rs[j]), Lfl(rs[j + 1]), Lcl(rs[j]) + c.W - Ln(rs[j]))
@@ -146,7 +154,7 @@ JudgeG(c, it, p, q) ==
   ELSE IF c.tool = "html" /\ (Lrs(rs[1]) # it.k \/ \E j \in 2..n : Lrs(rs[j]) # 0 \/ Len(Lw(rs[j])) > 0) THEN <<"rowspan", 0>>
   ELSE IF \E j \in 1..n : ~overOK(j) THEN <<"width-row", 0>>
   ELSE IF c.tool = "asm" /\ \E j \in 1..n : Lwl(rs[j]) > c.W /\ Lwarn(rs[j]) = 0 THEN <<"warn-row", 0>>
-  ELSE <<"ok", IF c.tool = "gen" THEN 0 ELSE unpacked + early + broke>>
+  ELSE <<"ok", IF c.tool = "gen" THEN 0 ELSE unpacked + early + broke + misaligned>>
 
 --------------------------------------------------------------------------
 RECURSIVE Walk(_, _, _, _, _)
